@@ -654,10 +654,45 @@ def member_type_pure(P, R, rule, f, adt, tag):
             exprs += [y["e"] for y in n["fields"] if y["name"] == "type"]
         elif n.get("k") == "Tup":
             exprs += [e for e in n.get("es", []) if peel_ty(e.get("t")) == TS]
+    def is_def(x, name):
+        return x.get("k") == "Path" and norm(x.get("def", "")).endswith("TSType::" + name)
+
+    def type_fields(e):
+        """(adt, field) the type expression derives from, control conditions included — except the condition of the `if` that only adds
+        `| undefined`: that is the member's *optionality* (coupled with `?` by the optional-flag rule), which may legitimately depend on
+        more than the declared type (e.g. the presence of a default value under an option); nullability may not."""
+        out, seen, st = set(), set(), [e]
+        while st:
+            n = st.pop()
+            if isinstance(n, list):
+                st.extend(n)
+                continue
+            if not isinstance(n, dict):
+                continue
+            k = n.get("k")
+            if k == "Path" and "local" in n:
+                if n["local"] not in seen:
+                    seen.add(n["local"])
+                    for src, extra in pv.src.get(n["local"], []):
+                        out |= {(x[1], x[2]) for x in extra if x[0] == "field"}
+                        if src is not None:
+                            st.append(src)
+                continue
+            if k == "Field" and n.get("adt"):
+                out.add((norm(n["adt"]), n["field"]))
+            if k == "If":
+                branches = [n.get("then"), n.get("else")]
+                inside = [x for b in branches if b is not None for x in subnodes(b)]
+                if any(is_def(x, "Undefined") for x in inside) and not any(is_def(x, "Null") for x in inside):
+                    st.extend(b for b in branches if b is not None)
+                    continue
+            if k in ("Binding", "Wild", "TupleStruct", "PatExpr", "Or", "Ref", "Range", "Slice") or (k == "Struct" and "rest" in n):
+                continue
+            st.extend(v for v in n.values() if isinstance(v, (dict, list)))
+        return out
     n_members = 0
     for e in exprs:
-        a = pv.atoms(e)
-        fields = {(x[1], x[2]) for x in a if x[0] == "field"}
+        fields = type_fields(e)
         if (adt, "type") not in fields:
             continue   # some other object type built by the function
         n_members += 1
